@@ -59,6 +59,10 @@ CLAIMED = {
         technique="runtime monitoring: differential oracle - the real router worker and the real sender worker (capture plugins) against the check's own implementation of the resolution rules",
         text="For generated routing tag values (identifiers, URLs of many schemes and shapes, JSON of every shape including unknown fields, numbers, arrays, null, nested and huge values), source tables (default / custom / several tag keys, first match wins) and target tables (names shadowing URLs, missing default, unknown transports), the real router worker's decision and recv bytes are compared with the stated rule (plain string = logical, JSON object with non-empty type = physical, anything else does not route); the task then carries exactly those bytes through the real sender worker, whose chosen transport, receiver data, message body (type, task id/counter/hrefs or promise for notifications) and completion (success / failure / error / queue full, unknown or undeliverable address = failed hand-off with nothing sent) are compared with the check's own resolution. A panic of either worker is a violation.",
         note="Trusted: the check's reading of the rules (harness/vroute/main.go resolve, harness/vh/oracles.go), net/url for URL parsing. Keys differing only in case and duplicate JSON keys are classified under-specified and skipped. Retrying of failed hand-offs by the dispatch cycle is observed by C08."),
+    "C13": dict(engine="proc", category="exploration", design="DESIGN.md §4 C13, §2.4",
+        technique="runtime monitoring: liveness oracle on the real server process (exit status, health read, panic site from stderr) after every hostile input, after background cycles and after a restart on the same database; client-error + no-trace oracle for invalid input",
+        text="The real `resonate serve` binary (built from the working tree) runs on a database file with a 50 ms signal timeout. For every POST/PATCH route each body field is mutated (absent, null, empty, wrong JSON type, negative, 0, max/min int64, out-of-range numbers, 1 MB strings, non-JSON bodies); 60 hostile strings (JSON literals, receiver objects with missing parts, template syntax, URL fragments, separators, control characters) are placed where the server interprets them later (routing tags, registration receivers on promises that time out at once, schedule id templates / cron / promise tags with an every-second cron, path ids, query parameters, headers, cursors including ones signed with the hard-coded key around hostile requests); gRPC messages with nil sub-messages, unset oneofs, empty and negative fields. After every batch: background cycles, process and health probe, kill + restart on the same database, cycles, probe. A death is attributed by re-running each input of the batch alone on a fresh database (then restarted once more to tell poison pills). Inputs the API contract makes invalid must get 4xx / InvalidArgument and leave no row containing the input's unique marker.",
+        note="Trusted: the harness's classification of which inputs are invalid by contract (only required/typed/ranged fields the front ends themselves validate), process liveness as the oracle. Dropped replies and 5xx answers are confirmed on a fresh server before they are reported; health probes are retried for 4 s before 'wedged' is reported. Only generated inputs are covered."),
 }
 
 PENDING_REASON = "check for this property is not built yet in this round (machinery under construction; see DESIGN.md §9 build order)"
